@@ -13,6 +13,10 @@ def run(res, tier, seed):
     res.assumptions += [
         'coarse spacings in the model are sums of two fine spacings (the code subtracts coarse coordinates): equal up to rounding',
     ]
+    for n, ok, msg in C.run_translators(['t3_stencil']):
+        res.obligation('translator:' + n, ok, msg[-300:])
+        if not ok:
+            res.fail('translator:' + n, msg)
     cr = C.coq_build('C09')
     res.add_coq(cr)
     out = I.run_correspondence(res, tier, seed, ('FMG',))
